@@ -470,23 +470,3 @@ Proof.
     rewrite E1. rewrite <- !app_assoc. reflexivity.
 Qed.
 
-(* consequences of the flag rules, stated separately because they are what BIP144 demands *)
-Lemma tx_unknown_flag_rejected aw s t rest : bytes_ok s -> unser_tx aw s = Ok t rest ->
-  (* a deserialised transaction in extended format always carries at least one non-empty witness *)
-  forall pre, s = write_le 4 (tx_version t) ++ 0%N :: 1%N :: pre -> aw = true -> tx_vin t <> [] ->
-  has_witness (tx_vin t) = true.
-Proof.
-  intros Hs H pre Es Haw Hvin. subst aw.
-  pose proof (tx_canonical true s t rest Hs H) as C. unfold ser_tx in C. cbn [andb] in C.
-  destruct (has_witness (tx_vin t)) eqn:HW; [reflexivity|exfalso].
-  change (0 =? 0) with true in C. change (Z.land 0 1 =? 0) with true in C. cbv iota in C. cbn [app] in C.
-  rewrite Es in C. rewrite <- !app_assoc in C. apply app_inv_head in C.
-  destruct (tx_vin t) as [|i l] eqn:Ev; [congruence|].
-  (* the vin count byte would have to be 0 *)
-  unfold ser_vector in C at 1. unfold write_compact_size in C.
-  cbn [length] in C.
-  destruct (Z.of_nat (S (length l)) <? 253) eqn:C1.
-  - rewrite write_le1_byte in C by lia. cbn [app] in C. inversion C. lia.
-  - destruct (Z.of_nat (S (length l)) <=? 65535); [|destruct (Z.of_nat (S (length l)) <=? UINT32_MAX)];
-      cbn [app] in C; inversion C.
-Qed.
